@@ -572,23 +572,26 @@ func checkC03(c *Ctx) {
 
 // ---- hand-over of the connection to the negotiated cryptographer ------------------------------------------------------
 
-// hoConn is a net.Conn whose Read blocks until bytes are pushed (or the deadline passes) and signals when a Read starts.
+// hoConn is a net.Conn whose Read blocks until bytes are pushed (or the connection is closed) and signals when a Read starts.
 type hoConn struct {
 	mu      sync.Mutex
 	in      []byte
 	wake    chan struct{}
 	started chan struct{}
 	out     [][]byte
-	dl      time.Time
+	closed  bool
 }
 
-func newHoConn() *hoConn {
-	return &hoConn{wake: make(chan struct{}, 16), started: make(chan struct{}, 16)}
-}
+func newHoConn() *hoConn { return &hoConn{wake: make(chan struct{}, 64), started: make(chan struct{}, 64)} }
 func (h *hoConn) Read(b []byte) (int, error) {
 	h.started <- struct{}{}
+	deadline := time.After(3 * time.Second)
 	for {
 		h.mu.Lock()
+		if h.closed {
+			h.mu.Unlock()
+			return 0, io.ErrClosedPipe
+		}
 		if len(h.in) > 0 {
 			n := copy(b, h.in)
 			h.in = h.in[n:]
@@ -598,7 +601,7 @@ func (h *hoConn) Read(b []byte) (int, error) {
 		h.mu.Unlock()
 		select {
 		case <-h.wake:
-		case <-time.After(3 * time.Second):
+		case <-deadline:
 			return 0, io.EOF
 		}
 	}
@@ -611,110 +614,258 @@ func (h *hoConn) push(b []byte) {
 }
 func (h *hoConn) Write(b []byte) (int, error) {
 	h.mu.Lock()
+	defer h.mu.Unlock()
+	if h.closed {
+		return 0, io.ErrClosedPipe
+	}
 	h.out = append(h.out, append([]byte{}, b...))
-	h.mu.Unlock()
 	return len(b), nil
 }
-func (h *hoConn) Close() error                       { return nil }
+func (h *hoConn) Close() error {
+	h.mu.Lock()
+	h.closed = true
+	h.mu.Unlock()
+	select {
+	case h.wake <- struct{}{}:
+	default:
+	}
+	return nil
+}
+func (h *hoConn) isClosed() bool                     { h.mu.Lock(); defer h.mu.Unlock(); return h.closed }
 func (h *hoConn) LocalAddr() net.Addr                { return fakeAddr("127.0.0.1:1") }
 func (h *hoConn) RemoteAddr() net.Addr               { return fakeAddr("10.0.4.1:4000") }
 func (h *hoConn) SetDeadline(t time.Time) error      { return nil }
 func (h *hoConn) SetReadDeadline(t time.Time) error  { return nil }
 func (h *hoConn) SetWriteDeadline(t time.Time) error { return nil }
 
-// c03Handover forces each interleaving of (a read starting | the handler negotiating the cryptographer | the answer
-// being written | the controller sending ciphertext) on a real hap.Connection and compares with HcModel/Handover.lean.
+// hoSchedule draws an operation sequence that respects the model's assumptions about one finish request: the handler
+// negotiates (at most once) before its answer, the controller sends ciphertext only after a negotiated answer, a read
+// completes only when something is in flight; `excess` (bytes glued behind the request) can only come first.
+func hoSchedule(r *rand.Rand) []string {
+	var ops []string
+	crypt, wrote, pending, wire, sent := false, false, false, false, false
+	if r.Intn(4) == 0 {
+		ops = append(ops, "excess")
+	}
+	for len(ops) < 3+r.Intn(6) {
+		var cand []string
+		if !pending {
+			cand = append(cand, "readStart", "readStart")
+		}
+		if !crypt && !wrote && r.Intn(3) > 0 {
+			cand = append(cand, "setCrypt", "setCrypt")
+		}
+		if !wrote {
+			cand = append(cand, "writeResp")
+		}
+		if wrote && crypt && !wire && !sent {
+			cand = append(cand, "peerSends", "peerSends")
+		}
+		if !wire {
+			cand = append(cand, "foreign")
+		}
+		if pending && wire {
+			cand = append(cand, "readDone", "readDone", "readDone")
+		}
+		if len(cand) == 0 {
+			break
+		}
+		op := cand[r.Intn(len(cand))]
+		switch op {
+		case "readStart":
+			pending = true
+		case "setCrypt":
+			crypt = true
+		case "writeResp":
+			wrote = true
+		case "peerSends":
+			wire, sent = true, true
+		case "foreign":
+			wire = true
+		case "readDone":
+			pending, wire = false, false
+		}
+		ops = append(ops, op)
+	}
+	return ops
+}
+
+// c03Handover forces interleavings of (a read starting | the handler negotiating the cryptographer | the answer being
+// written | the controller sending ciphertext | foreign plaintext arriving, glued behind the finish request or on its
+// own) on a real hap.Connection and compares with HcModel/Handover.lean.
 func c03Handover(c *Ctx) {
 	schedules := [][]string{
 		{"readStart", "setCrypt", "writeResp", "peerSends", "readDone"},
 		{"setCrypt", "readStart", "writeResp", "peerSends", "readDone"},
 		{"setCrypt", "writeResp", "readStart", "peerSends", "readDone"},
 		{"setCrypt", "writeResp", "peerSends", "readStart", "readDone"},
+		{"excess", "setCrypt", "writeResp"},
+		{"readStart", "foreign", "readDone", "setCrypt", "writeResp"},
+		{"readStart", "setCrypt", "foreign", "readDone", "writeResp"},
+		{"setCrypt", "writeResp", "readStart", "foreign", "readDone"},
+		{"writeResp", "readStart", "foreign", "readDone"},
+		{"readStart", "foreign", "readDone"},
 	}
-	for rep := 0; rep < c.Pick(3, 40); rep++ {
-		for si, ops := range schedules {
-			id := fmt.Sprintf("handover#%d.%d", si, rep)
-			if c.Skip(id) {
-				continue
+	nfixed := len(schedules)
+	for i := 0; i < c.Pick(60, 1500); i++ {
+		schedules = append(schedules, hoSchedule(c.CaseRng("handover-sched", i)))
+	}
+	var mu sync.Mutex
+	parallel(len(schedules), func(si int) {
+		ops := schedules[si]
+		id := fmt.Sprintf("handover#%d", si)
+		if c.Skip(id) {
+			return
+		}
+		r := c.CaseRng("handover", si)
+		raw := newHoConn()
+		ctx := hap.NewContextForSecuredDevice(nil)
+		conn := hap.NewConnection(raw, ctx)
+		sess := ctx.GetSessionForConnection(raw)
+		var shared [32]byte
+		copy(shared[:], randBytes(r, 32))
+		sec, _ := crypto.NewSecureSessionFromSharedKey(shared)
+		peer := newRefControllerSession(shared[:])
+		body := randBytes(r, 1+r.Intn(60))
+		finish := []byte(fmt.Sprintf("POST /pair-verify HTTP/1.1\r\nHost: x\r\nContent-Type: application/pairing+tlv8\r\nContent-Length: %d\r\n\r\n%s", len(body), body))
+		answer := []byte("HTTP/1.1 200 OK\r\nContent-Type: application/pairing+tlv8\r\nContent-Length: 3\r\n\r\n\x06\x01\x04")
+		request := []byte(fmt.Sprintf("GET /accessories?%d HTTP/1.1\r\nHost: x\r\n\r\n", r.Intn(1000)))
+		// longer than any frame its first two bytes could announce, so that a decrypting read does not wait for more
+		foreignReq := []byte("PUT /characteristics HTTP/1.1\r\nHost: x\r\nX-Pad: " + strings.Repeat("a", 23000) + "\r\nContent-Length: 0\r\n\r\n")
+		type rd struct {
+			b   byte
+			n   int
+			err error
+		}
+		done := make(chan rd, 1)
+		resp, delivered, foreign := "none", "none", 0
+		wire := ""
+		var viol []func()
+		// the finish request itself is read first (with foreign bytes glued behind it when the schedule starts with `excess`)
+		first := append([]byte{}, finish...)
+		rest := ops
+		if len(ops) > 0 && ops[0] == "excess" {
+			first = append(first, foreignReq[:200+r.Intn(200)]...)
+			rest = ops[1:]
+		}
+		raw.push(first)
+		var got []byte
+		buf := make([]byte, 4096)
+		for len(got) < len(first) {
+			n, err := conn.Read(buf)
+			got = append(got, buf[:n]...)
+			if err != nil || n == 0 {
+				break
 			}
-			r := c.CaseRng("handover", si*1000+rep)
-			raw := newHoConn()
-			ctx := hap.NewContextForSecuredDevice(nil)
-			conn := hap.NewConnection(raw, ctx)
-			sess := ctx.GetSessionForConnection(raw)
-			var shared [32]byte
-			copy(shared[:], randBytes(r, 32))
-			sec, _ := crypto.NewSecureSessionFromSharedKey(shared)
-			peer := newRefControllerSession(shared[:])
-			answer := []byte("HTTP/1.1 200 OK\r\nContent-Type: application/pairing+tlv8\r\nContent-Length: 3\r\n\r\n\x06\x01\x04")
-			request := []byte(fmt.Sprintf("GET /accessories?%d HTTP/1.1\r\nHost: x\r\n\r\n", r.Intn(1000)))
-			type rd struct {
-				b   byte
-				n   int
-				err error
+		}
+		if len(got) > len(finish) {
+			foreign = 1
+		} else if !raw.isClosed() && !bytes.Equal(got, finish) {
+			viol = append(viol, func() {
+				c.Violate("a plaintext request is not handed on unchanged", id, ops, hx(finish), hx(got))
+			})
+		}
+		for _, op := range rest {
+			if raw.isClosed() {
+				break
 			}
-			done := make(chan rd, 1)
-			resp, delivered := "none", "none"
-			for _, op := range ops {
-				switch op {
-				case "readStart":
-					go func() {
-						var one [1]byte // net/http's background read asks for one byte
-						n, err := conn.Read(one[:])
-						done <- rd{one[0], n, err}
-					}()
-					select {
-					case <-raw.started:
-					case <-time.After(2 * time.Second):
-					}
-				case "setCrypt":
-					sess.SetCryptographer(sec)
-				case "writeResp":
-					conn.Write(answer)
-					raw.mu.Lock()
-					var all []byte
-					for _, o := range raw.out {
-						all = append(all, o...)
-					}
-					raw.mu.Unlock()
-					if bytes.Equal(all, answer) {
-						resp = "plain"
-					} else {
-						resp = "enc"
+			switch op {
+			case "readStart":
+				go func() {
+					var one [1]byte // net/http's background read asks for one byte
+					n, err := conn.Read(one[:])
+					done <- rd{one[0], n, err}
+				}()
+				select {
+				case <-raw.started:
+				case <-time.After(2 * time.Second):
+				}
+			case "setCrypt":
+				sess.SetCryptographer(sec)
+			case "writeResp":
+				raw.mu.Lock()
+				raw.out = nil
+				raw.mu.Unlock()
+				conn.Write(answer)
+				raw.mu.Lock()
+				var all []byte
+				for _, o := range raw.out {
+					all = append(all, o...)
+				}
+				raw.mu.Unlock()
+				if bytes.Equal(all, answer) {
+					resp = "plain"
+				} else {
+					resp = "enc"
+					viol = append(viol, func() {
 						c.Violate("the answer to the pair-verify finish request is not sent in plaintext (cryptographer handed over too early)", id, ops, "plaintext M4", fmt.Sprintf("%d bytes, first %s", len(all), hx(all[:min(8, len(all))])))
-					}
-				case "peerSends":
-					raw.push(peer.Encrypt(request))
-				case "readDone":
-					select {
-					case x := <-done:
+					})
+				}
+			case "peerSends":
+				raw.push(peer.Encrypt(request))
+				wire = "cipher"
+			case "foreign":
+				raw.push(foreignReq)
+				wire = "foreign"
+			case "readDone":
+				select {
+				case x := <-done:
+					switch {
+					case wire == "cipher":
 						got := []byte{x.b}
 						if x.n == 1 && x.b == request[0] {
 							delivered = "dec"
-							rest := make([]byte, len(request))
+							more := make([]byte, len(request))
 							for len(got) < len(request) {
-								n, err := conn.Read(rest)
+								n, err := conn.Read(more)
 								if n == 0 || err != nil {
 									break
 								}
-								got = append(got, rest[:n]...)
+								got = append(got, more[:n]...)
 							}
 						} else {
 							delivered = "plain"
 						}
 						if !bytes.Equal(got, request) {
-							c.Violate("bytes sent by the controller after the pair-verify answer do not arrive decrypted (read was already waiting)", id, ops, string(request), fmt.Sprintf("n=%d err=%v first byte %02x, %d bytes in all", x.n, x.err, x.b, len(got)))
+							viol = append(viol, func() {
+								c.Violate("bytes sent by the controller after the pair-verify answer do not arrive decrypted (read was already waiting)", id, ops, string(request), fmt.Sprintf("n=%d err=%v first byte %02x, %d bytes in all", x.n, x.err, x.b, len(got)))
+							})
 						}
-					case <-time.After(4 * time.Second):
-						delivered = "none"
-						c.Violate("read on the connection does not return after the controller sent its request", id, ops, "request bytes", "timeout")
+					case wire == "foreign":
+						if x.n == 1 && x.b == foreignReq[0] {
+							foreign = 1
+						}
 					}
+					wire = ""
+				case <-time.After(5 * time.Second):
+					viol = append(viol, func() {
+						c.Violate("read on the connection does not return after bytes arrived", id, ops, "bytes or an error", "timeout")
+					})
 				}
 			}
-			impl := fmt.Sprintf("resp=%s delivered=%s", resp, delivered)
-			line := "handover run 1 " + strings.Join(ops, " ")
-			c.Same("handover", id, ops, c.Model1(line), impl)
-			c.Count(fmt.Sprint(ops, rep), true, "stream:handover")
 		}
-	}
+		closed := 0
+		if raw.isClosed() {
+			closed = 1
+		}
+		verified := sess.Encrypter() != nil || sess.Decrypter() != nil
+		impl := fmt.Sprintf("resp=%s delivered=%s closed=%d foreign=%d", resp, delivered, closed, foreign)
+		model := c.Model1("handover run 2 " + strings.Join(ops, " "))
+		raw.Close()
+		mu.Lock()
+		defer mu.Unlock()
+		if foreign == 1 && verified {
+			c.Violate("bytes that never went through the session's Decrypt were handed to the HTTP layer on a connection that this finish request verifies (a plaintext request glued behind a genuine pair-verify finish would be served)", id, ops,
+				"connection closed, or the bytes refused", impl)
+		}
+		for _, v := range viol {
+			v()
+		}
+		c.Same("handover", id, ops, model, impl)
+		kind := "random"
+		if si < nfixed {
+			kind = "fixed"
+		}
+		c.Count(fmt.Sprint(ops), true, "stream:handover", "handover:"+kind, "handover-impl:"+impl)
+	})
 }
